@@ -352,6 +352,8 @@ PROBES_C09 += [
     ("backreference-to-later-alternative", "/(a)|\\2(b)/.exec('b').length", 3),
     ("non-space-in-class", "[/[\\S]/.test('\u00e9'), /[^\\S]/.test('\u00e9'), /[\\S]/.test('\ufeff')].join()", "true,false,false"),
     ("hex-escape-in-class", "[/[\\x41]/.test('A'), /[\\x41]/.test('1'), /[\\u0061-c]/.test('b'), /[\\u0061-c]/.test('u'), /^[\\cJ]$/.test('\\n')].join()", "true,false,true,false,true"),
+    ("incomplete-escapes-in-class-are-letters", "[/[\\x]/.test('x'), /[\\x4]/.test('x'), /[\\x4]/.test('4'), /[\\xg1]/.test('g'), /[\\u]/.test('u'), /[\\u004]/.test('0'), /[\\u{41}]/.test('A'), /[\\u{41}]/.test('{'),"
+     " /[\\u{41}]/.test('u'), /[\\u{41}]/u.test('A'), /[\\x41]/.test('A'), /[\\u0041]/.test('A')].join()", "true,true,true,true,true,true,false,true,true,true,true,true"),
     ("only-ascii-digits-count", "[new RegExp('^a{\u0663}$').test('a{\u0663}'), new RegExp('^a{\u0663}$').test('aaa'), new RegExp('^a{\u00b2}$').test('a{\u00b2}'), new RegExp('^a{1,\u0662}$').test('aa'),"
                                 " new RegExp('^(a)\\\\1$').test('aa')].join()", "true,false,true,false,true"),
     ("kelvin-sign-ignore-case", "[/[a-z]/i.test('\u212a'), /k/i.test('\u212a'), /I/i.test('\u0131'), /s/i.test('\u017f'), /a/i.test('\u0130')].join()", "false,false,false,false,false"),
